@@ -37,6 +37,7 @@ type vecExp struct {
 	Outer   string   `json:"outer"`
 	Nested  string   `json:"nested"`
 	Payload string   `json:"payload"`
+	Next    string   `json:"next"`
 }
 
 type vector struct {
@@ -181,6 +182,24 @@ func runVector(v vector) (obs vt.Ev, bad string) {
 		case "tw":
 			w := sess.TokenWriter()
 			_, callErr = xmlstream.Copy(w, xmlstream.Wrap(inner(), start))
+			if e := w.Close(); callErr == nil {
+				callErr = e
+			}
+		case "tw_flush":
+			// the same element token by token, flushing after every token (a flush inside an element is legal)
+			w := sess.TokenWriter()
+			r := xmlstream.Wrap(inner(), start)
+			for callErr == nil {
+				tok, err := r.Token()
+				if tok != nil {
+					if callErr = w.EncodeToken(xml.CopyToken(tok)); callErr == nil {
+						callErr = w.Flush()
+					}
+				}
+				if err != nil || tok == nil {
+					break
+				}
+			}
 			if e := w.Close(); callErr == nil {
 				callErr = e
 			}
@@ -336,6 +355,47 @@ func runVector(v vector) (obs vt.Ev, bad string) {
 	}
 	if nattr != 0 {
 		return obs, fmt.Sprintf("attributes altered: %v", t.start.Attr)
+	}
+	// the NEXT transmit call: its element must be a top-level element of its own, whole and unchanged (whatever the
+	// call before left behind in the encoder)
+	probe := xml.StartElement{Name: xml.Name{Local: "message"}, Attr: []xml.Attr{{Name: xml.Name{Local: "id"}, Value: "probe-id"}, {Name: xml.Name{Local: "marker"}, Value: "probe"}}}
+	if err := sess.Send(ctx, xmlstream.Wrap(nil, probe)); err != nil {
+		return obs, "the next Send failed: " + err.Error()
+	}
+	wire2 := conn.WireString()[hdrLen:]
+	obs["wire_next"] = wire2
+	d2 := xml.NewDecoder(strings.NewReader("<stream:stream xmlns='" + ns + "' xmlns:stream='http://etherx.jabber.org/streams'>" + wire2))
+	depth, ntop, probeDepth, probeDone := 0, 0, 0, false
+	for {
+		tok, err := d2.Token()
+		if err != nil {
+			if err != io.EOF && !strings.Contains(err.Error(), "unexpected EOF") {
+				return obs, "wire not well-formed after the next Send: " + err.Error()
+			}
+			break
+		}
+		switch t := tok.(type) {
+		case xml.StartElement:
+			depth++
+			if depth == 2 {
+				ntop++
+			}
+			if mk, _ := attr(t, "marker"); mk == "probe" {
+				probeDepth = depth
+				if idv, _ := attr(t, "id"); idv != "probe-id" {
+					return obs, "the next call's element was altered: id " + idv
+				}
+			}
+		case xml.EndElement:
+			if depth == probeDepth && probeDepth != 0 {
+				probeDone = true
+			}
+			depth--
+		}
+	}
+	obs["next"] = fmt.Sprintf("depth %d, %d top-level", probeDepth, ntop)
+	if v.Exp.Next == "toplevel" && (probeDepth != 2 || !probeDone || ntop != len(tops)+1) {
+		return obs, fmt.Sprintf("the element of the next Send is not a top-level element of its own: found at depth %d (2 = top level), %d top-level elements on the wire, want %d", probeDepth, ntop, len(tops)+1)
 	}
 	return obs, ""
 }
